@@ -254,7 +254,7 @@ class MakeHeader(Contract):
 for _mode in ('3d', '2d', 'irregular', 'window'):
     _cfgs = ALL2 if _mode == '2d' else (ALL3[:3] if _mode == 'window' else ALL3)
     _cls = type('MakeHeader_' + _mode, (MakeHeader,), dict(mode=_mode))
-    _props = {'2d': ['C03', 'C05', 'C19', 'C09'], 'irregular': ['C03', 'C05', 'C19', 'C08'], 'window': ['C11']}.get(_mode, ['C03', 'C05', 'C19'])
+    _props = {'2d': ['C03', 'C05', 'C19', 'C09'], 'irregular': ['C03', 'C05', 'C19', 'C08'], 'window': ['C11', 'C03', 'C05']}.get(_mode, ['C03', 'C05', 'C19'])
     register(_cls, 'conversion_utils.py::make_header', _props, _cfgs, modes=('file',), tag=_mode)
 
 
